@@ -18,7 +18,10 @@ BINARY = {
 }
 UNARY = {'__neg__': '(- s)', '__pos__': 's'}
 REQUIRED = ['__add__', '__radd__', '__neg__', '__sub__', '__rsub__', '__mul__', '__rmul__', '__truediv__', '__rtruediv__', '__pow__', '__rpow__']
-NON_ARITHMETIC = {'__init__', '__array__', '__getitem__', 'shape', 'astuple'}
+NON_ARITHMETIC = {'__init__', '__array__', '__jax_array__', '__getitem__', 'shape', 'astuple'}
+# the array protocol hands out the value array (NumPy: as ndarray; JAX: the jax array itself)
+PROTOCOL = {'__array__': ('return np.asarray(self.value, dtype=dtype)', ['self', 'dtype', 'copy']), '__jax_array__': ('return self.value', ['self']),
+            '__getitem__': ('return self.value[index]', ['self', 'index'])}
 FIELD = ('field', {'value': 0})
 
 
@@ -33,6 +36,21 @@ def generate():
     missing = [m for m in REQUIRED if m not in methods]
     if missing:
         raise TranslateError(f'{SRC}: JaxDiscreteField lacks {missing}')
+    for name, (body, params) in PROTOCOL.items():
+        if name not in methods:
+            raise TranslateError(f'{SRC}: JaxDiscreteField lacks {name}')
+        got = [t2.src(st) for st in methods[name].body if not (isinstance(st, ast.Expr) and isinstance(st.value, ast.Constant))]
+        if got != [body] or [a.arg for a in methods[name].args.args] != params:
+            raise TranslateError(f'{SRC}: JaxDiscreteField.{name} changed: {got}')
+    prio = [st for st in cl.body if isinstance(st, ast.Assign) and t2.src(st.targets[0]) == '__array_priority__']
+    if len(prio) != 1 or not isinstance(prio[0].value, ast.Constant) or not prio[0].value.value > 0:
+        raise TranslateError(f'{SRC}: JaxDiscreteField.__array_priority__ must be a positive constant (NumPy operands defer to the field)')
+    nf = t2.only([n for n in it.tree.body if isinstance(n, ast.ClassDef) and n.name == 'NonlinearForm'], 'class NonlinearForm')
+    nfm = {n.name: n for n in nf.body if isinstance(n, ast.FunctionDef)}
+    if 'coo_data' not in nfm or 'return self.elemental(basis, x=x, **kwargs)' not in t2.src(nfm['coo_data']):
+        raise TranslateError(f'{SRC}: NonlinearForm.coo_data must forward to elemental')
+    if sorted(nfm) != ['_assemble', 'assemble', 'coo_data', 'elemental']:
+        raise TranslateError(f'{SRC}: NonlinearForm methods {sorted(nfm)}')
     it.funcs = methods
     defs, lemmas, present = [], [], []
     for name in sorted(methods):
